@@ -207,6 +207,7 @@ func childMain(args []string) error {
 }
 
 type world struct {
+	short bool   // every cache duration of the store is 1ns: an L2 entry is gone by the time anybody looks
 	kind  string // mem | redis | procs
 	dir   string
 	procs [2]proc
@@ -215,12 +216,12 @@ type world struct {
 	ctx   context.Context
 }
 
-func newWorld(ctx context.Context, kind string, c0 int) (*world, error) {
+func newWorld(ctx context.Context, kind string, c0 int, short, ttl bool) (*world, error) {
 	dir, err := os.MkdirTemp(hx.WorkRoot(), "c20-")
 	if err != nil {
 		return nil, err
 	}
-	w := &world{kind: kind, dir: dir, ctx: ctx}
+	w := &world{kind: kind, dir: dir, ctx: ctx, short: short}
 	mk := func() (sop.L2Cache, error) {
 		if kind == "mem" {
 			return w.mem, nil
@@ -248,7 +249,17 @@ func newWorld(ctx context.Context, kind string, c0 int) (*world, error) {
 			return err
 		}
 		inn, _ := persistx.PlacementByName("inNode")
-		b, err := txk.NewBtree[int, string](ctx, t, inn.Opts(setup.e, storeName, 4))
+		so := inn.Opts(setup.e, storeName, 4)
+		if short {
+			so.CacheConfig.RegistryCacheDuration = 1
+			so.CacheConfig.NodeCacheDuration = 1
+			so.CacheConfig.StoreInfoCacheDuration = 1
+			so.CacheConfig.ValueDataCacheDuration = 1
+		}
+		so.CacheConfig.IsRegistryCacheTTL = ttl
+		so.CacheConfig.IsNodeCacheTTL = ttl
+		so.CacheConfig.IsStoreInfoCacheTTL = ttl
+		b, err := txk.NewBtree[int, string](ctx, t, so)
 		if err != nil {
 			return err
 		}
@@ -357,14 +368,15 @@ func witness() []op {
 	}
 }
 
-func runCase(s *hx.Session, ctx context.Context, kind, label string, c0 int, ops []op) error {
-	w, err := newWorld(ctx, kind, c0)
+func runCase(s *hx.Session, ctx context.Context, kind, label string, c0 int, ops []op, short, ttl bool) error {
+	w, err := newWorld(ctx, kind, c0, short, ttl)
 	if err != nil {
 		return err
 	}
 	defer w.close()
 	s.BeginCase(fmt.Sprintf("%s-%s %d", label, kind, c0))
 	s.Hit("world:" + kind)
+	s.Hit(fmt.Sprintf("durations_1ns:%v ttl:%v", short, ttl))
 	cur := c0
 	lastWriter := -1
 	// does process p hold an L1 Handles entry from its own write that another process has since superseded?
@@ -373,6 +385,10 @@ func runCase(s *hx.Session, ctx context.Context, kind, label string, c0 int, ops
 	twoProc := false
 	for _, o := range ops {
 		var out string
+		if w.short {
+			// with 1ns durations every L2 entry has lapsed before the next operation looks: for the model that is a flush
+			s.Op("flushl2", "ok")
+		}
 		switch o.kind {
 		case "flushl2":
 			w.flush()
@@ -440,13 +456,36 @@ func run(o hx.RunOpts) error {
 		"read (NoCheck|ForReading|ForWriting, Find+GetCurrentValue+Commit), write (Update+Commit), drop one process's node MRU or Handles cache, flush L2; every answer diffed with Sop.Model.Cache; oracle: read = last committed content and lone commits succeed. "+
 		"distinct = canonical op hash; non-trivial = at least 4 operations")
 	ctx := context.Background()
+	if dbg := os.Getenv("VERIF_C20_DEBUG"); dbg != "" {
+		// "short,ttl;op;op;…" with op = "read 0 forwriting" etc.: one case, for triage
+		parts := strings.Split(dbg, ";")
+		var ops []op
+		for _, f := range parts[1:] {
+			w := strings.Fields(f)
+			o := op{kind: w[0]}
+			if len(w) > 1 {
+				o.p, _ = strconv.Atoi(w[1])
+			}
+			if o.kind == "read" {
+				o.mode = w[2]
+			}
+			if o.kind == "write" {
+				o.c, _ = strconv.Atoi(w[2])
+			}
+			ops = append(ops, o)
+		}
+		if err := runCase(s, ctx, "mem", "debug", 100, ops, strings.Contains(parts[0], "short"), strings.Contains(parts[0], "ttl")); err != nil {
+			return err
+		}
+		return s.Finish()
+	}
 	for _, kind := range []string{"mem", "redis", "procs"} {
-		if err := runCase(s, ctx, kind, "witness", 100, witness()); err != nil {
+		if err := runCase(s, ctx, kind, "witness", 100, witness(), false, false); err != nil {
 			return err
 		}
 	}
 	p := hx.NewPrng(o.Seed)
-	n := o.N(120, 1500)
+	n := o.N(600, 4000)
 	for i := 0; i < n; i++ {
 		kind := "mem"
 		switch {
@@ -460,7 +499,14 @@ func run(o hx.RunOpts) error {
 		if single {
 			label = "single"
 		}
-		if err := runCase(s, ctx, kind, label, 100, gen(p, single)); err != nil {
+		// cache durations below 5 minutes are raised to 5-10 minutes by StoreCacheConfig.enforceMinimumRule, so an
+		// expiry inside a run cannot be configured: it is emulated by the flushl2 operation. "short" stays off.
+		short := false
+		ttl := p.Chance(1, 2)
+		if short {
+			label += "-1ns"
+		}
+		if err := runCase(s, ctx, kind, label, 100, gen(p, single), short, ttl); err != nil {
 			return fmt.Errorf("case %d: %w", s.CaseNo, err)
 		}
 	}
